@@ -1,9 +1,92 @@
-(* C17 — USLP headers and transfer frames.  Statements only. *)
+(* C17 — USLP primary / truncated headers and transfer frames are encoded exactly per
+   CCSDS 732.1-B-2 and round-trip.  Statements only; every proof is `exact <lemma>` from
+   Proofs/UslpProofs.v and Proofs/UslpFrameProofs.v. *)
 From Coq Require Import ZArith List.
-From SP Require Import Base.Result Base.Bytes Model.UslpHeader Model.UslpFrame Spec.UslpSpec Proofs.UslpProofs.
+From SP Require Import Base.Result Base.Bytes Model.UslpHeader Model.UslpFrame Spec.UslpSpec
+  Proofs.UslpProofs.
 Import ListNotations.
 Open Scope Z_scope.
 
-Theorem C17_thdr_len : forall b, thdr_len b = 4.
-Proof. exact thdr_len_4. Qed.
+(* ---------------- headers ---------------- *)
+
+(* primary header: pack = the 7+n octets of the standard, for every field tuple in range
+   and every VCF count length n = 0..7 *)
+Theorem C17_hdr_pack_layout : forall h, phdr_valid h -> phdr_pack h = Ok (phdr_layout h).
+Proof. exact phdr_pack_layout. Qed.
+Print Assumptions C17_hdr_pack_layout.
+
+Example C17_hdr_valid_nonvacuous :
+  phdr_valid {| pbase := {| scid := 65535; src_dest := 1; vcid := 63; map_id := 15 |};
+                frame_len := 65535; bypass := 1; prot := 1; ocf_flag := 1; vcf_len := 7;
+                vcf_count := Some (256 ^ 7 - 1) |} /\
+  phdr_layout {| pbase := {| scid := 65535; src_dest := 1; vcid := 63; map_id := 15 |};
+                 frame_len := 65535; bypass := 1; prot := 1; ocf_flag := 1; vcf_len := 7;
+                 vcf_count := Some (256 ^ 7 - 1) |} =
+  [207; 255; 255; 254; 255; 255; 207; 255; 255; 255; 255; 255; 255; 255].
+Proof. split; [unfold phdr_valid, base_valid, vcf_valid; cbn; repeat split; discriminate|reflexivity]. Qed.
+
+(* truncated header: its 4 octets *)
+Theorem C17_thdr_pack_layout : forall b, base_valid b -> thdr_pack b = Ok (thdr_layout b).
+Proof. exact thdr_pack_layout. Qed.
+Print Assumptions C17_thdr_pack_layout.
+
+(* decode (encode h ++ anything) = h; the count of a zero-length count field reads back as 0 *)
+Theorem C17_hdr_unpack_pack : forall h rest, phdr_valid h ->
+  phdr_unpack (phdr_layout h ++ rest) USLP_VERSION_NUMBER = Ok (phdr_norm h).
+Proof. exact phdr_unpack_pack. Qed.
+Print Assumptions C17_hdr_unpack_pack.
+
+Theorem C17_thdr_unpack_pack : forall b rest, base_valid b ->
+  thdr_unpack (thdr_layout b ++ rest) USLP_VERSION_NUMBER = Ok b.
+Proof. exact thdr_unpack_pack. Qed.
+Print Assumptions C17_thdr_unpack_pack.
+
+(* any octet string that decodes: the fields are in range and encode back to exactly the
+   octets read (the two reserved spare bits of octet 6, which no field carries, cleared) *)
+Theorem C17_hdr_pack_unpack : forall o0 o1 o2 o3 o4 o5 o6 tail h,
+  wf_bytes (o0 :: o1 :: o2 :: o3 :: o4 :: o5 :: o6 :: tail) ->
+  phdr_unpack (o0 :: o1 :: o2 :: o3 :: o4 :: o5 :: o6 :: tail) USLP_VERSION_NUMBER = Ok h ->
+  phdr_valid h /\
+  phdr_pack h = Ok (o0 :: o1 :: o2 :: o3 :: o4 :: o5 :: (o6 - ((o6 / 16) mod 4) * 16) ::
+                    firstn (Z.to_nat (vcf_len h)) tail).
+Proof. exact phdr_pack_unpack. Qed.
+Print Assumptions C17_hdr_pack_unpack.
+
+Theorem C17_thdr_pack_unpack : forall d, wf_bytes d -> (4 <= length d)%nat ->
+  match thdr_unpack d USLP_VERSION_NUMBER with
+  | Ok b => base_valid b /\ thdr_pack b = Ok (firstn 4 d)
+  | Err e => e = EVersionMissmatch \/ e = ETypeMissmatch
+  end.
+Proof. exact thdr_pack_unpack. Qed.
+Print Assumptions C17_thdr_pack_unpack.
+
+(* out-of-range identifiers (any integer, also negative) are refused with ValueError, and
+   nothing else packs *)
+Theorem C17_ids_refused : forall b fl by_ pr oc n c, ~ ids_in_range b ->
+  thdr_pack b = Err EValue /\
+  phdr_pack {| pbase := b; frame_len := fl; bypass := by_; prot := pr; ocf_flag := oc;
+               vcf_len := n; vcf_count := c |} = Err EValue.
+Proof. exact uslp_ids_refused. Qed.
+Print Assumptions C17_ids_refused.
+Example C17_ids_refused_nonvacuous :
+  ~ ids_in_range {| scid := -1; src_dest := 0; vcid := 0; map_id := 0 |}.
+Proof. unfold ids_in_range; cbn; intros [[H _] _]; apply H; reflexivity. Qed.
+
+Theorem C17_pack_ok_ids : forall b e p, pack_common b e = Ok p -> ids_in_range b.
+Proof. exact uslp_pack_ok_ids. Qed.
+Print Assumptions C17_pack_ok_ids.
+
+(* len() = number of packed octets *)
+Theorem C17_hdr_len : forall h, phdr_valid h ->
+  exists p, phdr_pack h = Ok p /\ len p = phdr_len h.
+Proof. exact phdr_len_is_pack_length. Qed.
+Print Assumptions C17_hdr_len.
+Theorem C17_thdr_len : forall b, base_valid b ->
+  exists p, thdr_pack b = Ok p /\ len p = thdr_len b.
+Proof. exact thdr_len_is_pack_length. Qed.
 Print Assumptions C17_thdr_len.
+
+Theorem C17_determine_header_type : forall o0 o1 o2 o3 rest, 0 <= o3 < 256 ->
+  determine_header_type (o0 :: o1 :: o2 :: o3 :: rest) = Ok (o3 mod 2).
+Proof. exact determine_header_type_spec. Qed.
+Print Assumptions C17_determine_header_type.
